@@ -205,6 +205,22 @@ CHECKS = {
               "f2129c0)."),
         technique="TLA+ option lattice with exact-zero pattern + response terms (TLC) replayed against both solvers",
     ),
+    "C17": dict(
+        cat="exploration",
+        text=("specs/Newmark.tla: the run as a state machine Start / Step x (nt-2) / Finish (TLC checks the schedule for nt in "
+              "{2,3,4,7}) and the documented recurrence as rule terms (u_-1, F_-1, replaced F_0, the three-force average with A, "
+              "A1, A0, extrapolated last force, central differences, static rf). The driver applies the rules with the generic "
+              "evaluator and compares SolveNewmark's d, v, a and z[...] over a lattice {diagonal, full} x mass {None, vector, "
+              "matrix, singular} x rf x ic x 0-2 nonlinear terms x nt. CDF: every step of SolveCDF / cd_as_force must satisfy the "
+              "defining implicit relation (exact diagonal step driven by f - C_od v at both ends), with the exact diagonal step "
+              "from the terms of specs/OdeModel.tla at 40 digits. Laws: diagonal damping => SolveCDF bit-identical to SolveUnc; "
+              "error ladder h..h/32 against the exact solver (first order for Newmark, second order with a consistent start); "
+              "boundedness for w*h up to 5e3 incl. a massless DOF."),
+        ref="4/C17",
+        note=("Trusted: TLC, generic term evaluator. Convergence and stability are observed on finite ladders, not proved. Nonlinear "
+              "terms together with rf are outside the documented domain."),
+        technique="TLA+ run schedule + recurrence rule terms (TLC) applied by a generic evaluator; defining-relation residual for CDF",
+    ),
 }
 
 NOT_YET = {}
